@@ -21,6 +21,10 @@ every oracle price, every asset decimal scale, every prior history incl. accrued
 * "a vault's principal is never left below the product's debt floor unless the vault is closed"    → `C03.floor_kept`
 * "the principal outstanding across a product never exceeds its debt ceiling"                      → `C03.ceiling_kept`
 * "when the required oracle price is not active these operations fail"                            → `C03.inactive_price_rejects`
+* floor / ceiling when the configuration CHANGES between messages (ceiling lowered below the outstanding principal, floor
+  raised above a vault's principal — the clauses are then false of the state without any message): no accepted message makes
+  an excess worse      → `C03.ceiling_excess_never_increases`, `C03.floor_deficit_never_increases`; limits that hold again
+  keep holding         → `C03.limits_kept_from`
 -/
 namespace Comdex.C03
 open Comdex Comdex.Vault Comdex.C01
